@@ -597,14 +597,14 @@ class PseudoNetCDFFile(PseudoNetCDFSelfReg, object):
             idx = np.arange(dimevals.size)
         else:
             idx = np.arange(dimvals.size)
-        ddimevals = np.diff(dimevals)
-
-        if (ddimevals < 0).all():
+        # compare neighbours instead of differencing: np.diff can overflow
+        # for integer coordinates (e.g., int32 seconds spanning > 68 years)
+        if (dimevals[1:] < dimevals[:-1]).all():
             # np.interp needs ascending x: reverse edges, centres and indices
             dimevals = dimevals[::-1]
             dimvals = dimvals[::-1]
             idx = idx[::-1]
-        elif (ddimevals > 0).all():
+        elif (dimevals[1:] > dimevals[:-1]).all():
             pass
         else:
             raise ValueError('coordinate is neither ascending nor descending')
